@@ -184,6 +184,7 @@ func reportChoiceViolation(r *evid.Run, name string, scen choice.Scenario, newLo
 	// re-execute 5x: must reproduce identically
 	var sigs []string
 	var labels string
+	var traced []choice.Failure
 	for i := 0; i < 5; i++ {
 		var loc any
 		if newLocal != nil {
@@ -191,6 +192,7 @@ func reportChoiceViolation(r *evid.Run, name string, scen choice.Scenario, newLo
 		}
 		c := choice.RunOne(scen, v.Choices, loc)
 		labels = choice.Describe(c)
+		traced = c.Fails
 		var s []string
 		for _, f := range c.Fails {
 			s = append(s, f.Sig)
@@ -213,7 +215,7 @@ func reportChoiceViolation(r *evid.Run, name string, scen choice.Scenario, newLo
 		r.HarnessError(fmt.Sprintf("scenario %s vector %v: replay differs from exploration: %q vs %q", name, v.Choices, strings.Join(orig, "|"), sigs[0]))
 		return
 	}
-	for _, f := range v.Fails {
+	for _, f := range traced {
 		r.Violation(evid.Replay{Scenario: name, Kind: "choice", Vector: v.Choices, Labels: labels, Sig: f.Sig, Detail: f.Detail})
 	}
 }
